@@ -193,8 +193,11 @@ fn gen_record(rng: &mut Rng, s: &mut Scenario, next_id: &mut u8, batch: u64, bud
             ids.push(id);
         }
         22 if band => {
-            let want = rng.urange(16385, CAP) - 4;
-            let m = Item::new("certificate_verify").bytes("body", &rng.bytes(want));
+            // (a certificate chain: the one handshake body whose size the RFCs leave open)
+            let want = rng.urange(16385, CAP) - 4 - 6;
+            let mut cert = rng.bytes(want);
+            cert[0] = 0x30;
+            let m = Item::new("certificate").list("certs", vec![cert]);
             add(rng, s, next_id, m, &mut ids, &mut total);
         }
         20 | 21 | 22 if crowd => {
@@ -210,7 +213,8 @@ fn gen_record(rng: &mut Rng, s: &mut Scenario, next_id: &mut u8, batch: u64, bud
                     if rng.chance(1, 2) {
                         Item::new("hello_request")
                     } else {
-                        gen::handshake(rng, "key_update", 8)
+                        let m = gen::handshake(rng, "key_update", 8);
+                        gen::rfc_valid(rng, m)
                     }
                 }
             };
